@@ -55,6 +55,14 @@ def main() -> None:
         'notes': 'Family: machine-checked proof in Coq 8.16.1. Each check = proof obligations (Props/Cxx.v) + model/implementation correspondence + oracle search for a failing input. See DESIGN.md.',
     }
     (ROOT / 'MANIFEST.json').write_text(json.dumps(man, indent=1) + '\n')
+    merged = {'known': [], 'fixed': []}
+    for f in sorted((ROOT / 'known_findings').glob('C*.json')):
+        d = json.loads(f.read_text())
+        for e in d.get('known', []):
+            e = dict(e); e['property'] = f.stem; merged['known'].append(e)
+        for e in d.get('fixed', []):
+            e = dict(e); e['property'] = f.stem; merged['fixed'].append(e)
+    (ROOT / 'KNOWN_FINDINGS.json').write_text(json.dumps(merged, indent=1) + '\n')
     try:
         import jsonschema
         jsonschema.validate(man, json.loads(Path('/root/.vp/MANIFEST.schema.json').read_text()))
